@@ -39,7 +39,8 @@ RULE = ("cases = trace(scenario, initial home) for 9 scenarios (import, reset al
         "compared exactly with the model; non-trivial = at least one write step executed; distinct by content hash")
 
 SCENARIOS = ["start", "reset_all", "reset_subset", "set", "merge",
-             "cli_set", "cli_set_merge", "cli_reset_all", "cli_reset_subset"]
+             "cli_set", "cli_set_merge", "cli_reset_all", "cli_reset_subset",
+             "cli_set_then_reset", "set_reset_set"]      # L2: two invocations / three edits in ONE process
 # (dir, V, S): homes as evo leaves them (Consistent in the model) ...
 INITS = [("0", "absent", "absent"), ("1", "absent", "absent"), ("1", "current", "absent"),
          ("1", "current", "wf"), ("1", "old", "wf"), ("1", "old", "lacking"), ("1", "empty", "lacking")]
@@ -287,6 +288,18 @@ def child_main(home, scenario, wfd, rfd, crash_after, torn):
             import evo.main_config as mc
             if scenario == "set":
                 mc.set_config(st.DEFAULT_PATH, ["plot_split", "plot_linewidth", "3"])
+            elif scenario == "set_reset_set":
+                mc.set_config(st.DEFAULT_PATH, ["plot_split", "plot_linewidth", "3"])
+                st.reset(st.DEFAULT_PATH, ["plot_linewidth"])
+                mc.set_config(str(st.DEFAULT_PATH), ["plot_linewidth", "4.5"])
+            elif scenario == "cli_set_then_reset":
+                for argv in (["set", "plot_split", "plot_linewidth", "3"], ["reset", "plot_split", "plot_linewidth"]):
+                    sys.argv = ["evo_config"] + argv
+                    try:
+                        mc.main()
+                    except SystemExit as e:
+                        if e.code not in (None, 0):
+                            raise RuntimeError(f"evo_config exited with {e.code}")
             elif scenario == "merge":
                 mc.merge_json_union(st.DEFAULT_PATH, other, False)
             else:
@@ -423,9 +436,15 @@ def gen_cases(ctx):
         n = r.choice([2, 2, 2, 3])
         scs = [r.choice(["start", "start", "start", "cli_set", "reset_all", "merge", "reset_subset"]) for _ in range(n)]
         init = r.choice([INITS[0], INITS[0], INITS[0], INITS[1], INITS[2], INITS[5], INITS[4], ver_init(r.choice(VERSION_STRINGS))])
-        style = r.choice(["uniform", "bursty", "lockstep"])
+        style = r.choice(["uniform", "bursty", "lockstep", "late-last"])
         sched = []
-        if style == "lockstep":
+        if style == "late-last":
+            # the last process starts while the others are already interleaving (after k of their steps)
+            k = r.randint(1, 25)
+            first = [r.randrange(max(1, n - 1)) for _ in range(k)]
+            rest = [r.randrange(n) for _ in range(45 * n)]
+            sched = first + rest
+        elif style == "lockstep":
             for _ in range(45):
                 sched += list(range(n))
         else:
@@ -684,7 +703,9 @@ def check(ctx):
                        "as empty -> proper prefix -> complete), no reordering after power loss (no fsync in code or model)",
                        "the bootstrap that records evo's file-system steps (wrappers around builtins.open, file write/close, "
                        "os.replace, Path.mkdir, Path.exists); a read is one atomic step (an open file keeps the replaced inode)"],
-        open_clauses=["os.access / logging handlers are not traced (no file below ~/.evo is touched by them with default settings)",
+        open_clauses=["a kill *inside* os.replace is not a crash point of the model or of the fault enumeration: rename is atomic by assumption "
+                      "(the state is the one before or the one after the step)",
+                      "os.access / logging handlers are not traced (no file below ~/.evo is touched by them with default settings)",
                       "the file named by -m/--merge and -c/--config is user input: assumed readable JSON",
                       "homes that evo cannot have left behind (settings.json lacking keys next to no / a current assets_version) "
                       "are outside the theorems' precondition `Consistent`"],
